@@ -163,12 +163,15 @@ private:
 #ifdef ASL_VERIF
 		asl_verif_point(11, p);
 #endif
+		State_* st = t->_state; // the thread's own reference: the flag is written after the last use of the object
+		++st->rc;
 		t->run();
 #ifdef ASL_VERIF
 		asl_verif_point(14, (void*)pthread_self());
 #endif
-		t->_state->finished = true;
-		t->ended(); // last use of t: the object may delete itself here
+		t->ended(); // last use of t: the object may delete itself here, and its owner may delete it once finished() is true
+		st->finished = true;
+		releaseState(st);
 		return 0;
 	}
 #ifdef ASL_EXP_THREADING
@@ -264,8 +267,8 @@ public:
 	/** The thread procedure. Reimplement this function to create new threads */
 	virtual void run()
 	{}
-	/** Called in the thread after run() has returned and finished() has become true; a thread object
-	that owns itself can delete itself here (not in run(), after which the object is still used) */
+	/** Called in the thread after run() has returned, just before finished() becomes true, as the thread's last use
+	of the object; a thread object that owns itself can delete itself here (not in run(), after which the object is still used) */
 	virtual void ended()
 	{}
 	/** Starts a new thread by calling run() in parallel */
